@@ -6,7 +6,7 @@
 //! dumped Ddnnf.nodes and number_of_variables go into the block.  A second block kind carries a
 //! sample of well-formed and malformed LINES with what lex_line_d4 answered.
 use crate::common::*;
-use crate::k_c01::{make_input, sources};
+use crate::k_c01::{make_input, sources, write_models};
 use crate::rng::Rng;
 use ddnnife::parser::d4_lexer::{lex_line_d4, D4Token};
 use std::fmt::Write as _;
@@ -21,10 +21,15 @@ fn max_nodes(ctx: &Ctx) -> usize {
 }
 
 fn emit(ctx: &Ctx, out: &mut dyn Write, id: &str, info: &str, n: u32, lines: &[String]) {
+    emit_with(ctx, out, id, info, n, lines, "")
+}
+
+fn emit_with(ctx: &Ctx, out: &mut dyn Write, id: &str, info: &str, n: u32, lines: &[String], extra: &str) {
     let mut s = String::new();
     writeln!(s, "case {} LD4", id).unwrap();
     writeln!(s, "info {}", info).unwrap();
     writeln!(s, "n {}", n).unwrap();
+    s.push_str(extra);
     s.push_str(&file_block("d4", lines));
     match load(lines, Some(n)) {
         Err(e) => writeln!(s, "impl panic {}", e).unwrap(),
@@ -234,6 +239,9 @@ pub fn run(_kind: &str, ctx: &Ctx, out: &mut dyn Write) {
             continue;
         }
         k += 1;
-        emit(ctx, out, &inp.id, &inp.desc, inp.n, &inp.lines);
+        // truth table of the source formula: judges the FILE SEMANTICS eval_d4 of the spec side
+        let mut extra = String::new();
+        write_models(&mut extra, &inp);
+        emit_with(ctx, out, &inp.id, &inp.desc, inp.n, &inp.lines, &extra);
     }
 }
